@@ -26,7 +26,8 @@ from typing import TYPE_CHECKING, Dict, List, Sequence, Tuple, Type
 
 from .logging import SSHLogger
 from .misc import HashType
-from .packet import SSHPacketHandler
+from .packet import PacketDecodeError, SSHPacket, SSHPacketHandler
+from .public_key import get_signature_alg
 
 
 if TYPE_CHECKING:
@@ -56,7 +57,25 @@ class Kex(SSHPacketHandler):
         self._conn = conn
         self._logger = conn.logger
         self._hash_alg = hash_alg
+        self._host_key_alg = b''
 
+    def set_host_key_alg(self, host_key_alg: bytes) -> None:
+        """Set the negotiated server host key algorithm"""
+
+        self._host_key_alg = host_key_alg
+
+    def check_host_key_sig_alg(self, sig: bytes) -> bool:
+        """Return if a signature was made with the negotiated algorithm"""
+
+        if not self._host_key_alg:
+            return True
+
+        try:
+            sig_alg = SSHPacket(sig).get_string()
+        except PacketDecodeError:
+            return False
+
+        return sig_alg == get_signature_alg(self._host_key_alg)
 
     async def start(self) -> None:
         """Start key exchange"""
